@@ -287,6 +287,10 @@ pub fn run_other(ctx: &mut Ctx, kind: &str, v: &J) {
     match kind {
         "fixpoint" => run_fixpoint(ctx, v),
         "oneitem" => run_oneitem(ctx, v),
+        "recipe" => {
+            let scratch = ctx.scratch.clone();
+            crate::runner6::run_recipe(ctx, v, &scratch)
+        }
         _ => ctx.harness_error(format!("unknown vector kind {}", kind)),
     }
 }
